@@ -6,10 +6,12 @@
 (* scalars, the secp256k1 order, and the primitives bound to the oracle    *)
 (* table recorded with each event (Oracle.tla).                            *)
 (***************************************************************************)
-EXTENDS Bytes, Base58, ExtKey, KeyCodec, Oracle, Json, IOUtils, TLC
+EXTENDS Bytes, Base58, ExtKey, KeyCodec, Ripemd, Oracle, Json, IOUtils, TLC
 
 K32 == INSTANCE Bip32 WITH KeyLen <- 32, IdxLen <- 4, HardMin <- 128, N <- SecpN,
                            Hmac <- HmacSha512, PtC <- PtC, PtAdd <- PtAddC, H160 <- Hash160
+
+AD == INSTANCE Address WITH Sha <- Sha256, Rip <- Ripemd160, H256 <- Hash256
 
 Trace == JsonDeserialize(IOEnv.TRACE_FILE)
 
@@ -263,6 +265,41 @@ V_SecParse(e) ==             \* e.inp = candidate bytes
                ELSE "secparse-accepted-point-not-on-curve"
 
 ---------------------------------------------------------------------------
+\* C05 addresses, script templates, HASH160
+\* e.inp = [kind, net, K (compressed SEC), via ("wallet" | "pubkey"), compressed]
+V_Addr(e) ==
+  LET sec == IF e.inp.compressed THEN e.inp.K ELSE Uncompress(e, e.inp.K)
+      want == AD!Addr(e, e.inp.kind, sec, e.inp.net)
+  IN IF Raised(e) THEN "addr-raised"
+     ELSE IF AD!Classify(e, e.res.v) # AD!Expected(e, e.inp.kind, sec, e.inp.net)
+          THEN (LET c == AD!Classify(e, e.res.v)  x == AD!Expected(e, e.inp.kind, sec, e.inp.net)
+                IN IF c[1] = "unknown" THEN "addr-does-not-decode"
+                   ELSE IF c[2] # x[2] THEN "addr-wrong-network"
+                   ELSE IF c[1] # x[1] THEN "addr-wrong-version-or-kind"
+                   ELSE "addr-wrong-hash")
+     ELSE IF e.res.v # want THEN "addr-string"
+     ELSE "ok"
+
+\* e.inp = [tpl, h]; e.res.v = raw bytes
+V_ScriptTpl(e) ==
+  LET want == CASE e.inp.tpl = "p2pkh" -> AD!ScriptP2PKH(e.inp.h)
+                [] e.inp.tpl = "p2sh" -> AD!ScriptP2SH(e.inp.h)
+                [] e.inp.tpl = "p2wpkh" -> AD!ScriptP2WPKH(e.inp.h)
+                [] e.inp.tpl = "p2wsh" -> AD!ScriptP2WSH(e.inp.h)
+  IN IF Raised(e) THEN "script-template-raised"
+     ELSE IF e.res.v # want THEN "script-template-" \o e.inp.tpl
+     ELSE "ok"
+
+\* e.inp = message; e.res.v = [h160, rip (of the message itself)], e.calls = observed compress calls
+V_Hash(e) ==
+  IF Raised(e) THEN "hash-raised"
+  ELSE IF e.res.v.rip # Ripemd160(e, e.inp) THEN "ripemd160-value"
+  ELSE IF e.res.v.h160 # Ripemd160(e, Sha256(e, e.inp)) THEN "hash160-value"
+  ELSE IF Len(e.calls) = 0 THEN "ok"
+  ELSE LET sv == ShellVerdict(e.inp, e.calls, e.res.v.rip)
+       IN IF sv = "ok" THEN "ok" ELSE "ripemd-shell-" \o sv
+
+---------------------------------------------------------------------------
 Verdict(e) ==
   CASE e.act = "Master" -> V_Master(e)
     [] e.act = "CkdPriv" -> V_CkdPriv(e)
@@ -278,6 +315,9 @@ Verdict(e) ==
     [] e.act = "Wif" -> V_Wif(e)
     [] e.act = "FromWif" -> V_FromWif(e)
     [] e.act = "SecParse" -> V_SecParse(e)
+    [] e.act = "Addr" -> V_Addr(e)
+    [] e.act = "ScriptTpl" -> V_ScriptTpl(e)
+    [] e.act = "Hash" -> V_Hash(e)
     [] OTHER -> "unknown-act"
 
 TraceInit == l = 1
